@@ -438,6 +438,12 @@ def run(ctx):
                 ctx.fail('clear_not_idempotent', f'{str(x)!r}.clear_features{tuple(names)} = {str(r)!r}, again = {str(r2)!r}', data)
             if not any(hit) and tf(lambda: r == x) is not True:
                 ctx.fail('clear_noop_changes', f'{str(x)!r}.clear_features{tuple(names)} has nothing to erase but the result {str(r)!r} is not == the receiver', data)
+            # the erased category is a value like any other: it hashes like, and is found by, an independently built equal value
+            twin = V[j] if j is not None else (Category.parse(str(r)) if gen.wf_py(r) else None)
+            if twin is not None and twin is not r and tf(lambda: twin == r) is True:
+                if tf(lambda: hash(r) == hash(twin) and r in {twin} and twin in {r} and {twin: 1}.get(r) == 1) is not True:
+                    ctx.fail('clear_result_not_hashable_as_its_value', f'{str(x)!r}.clear_features{tuple(names)} = {str(r)!r} is == an independently built {str(twin)!r} '
+                             f'but hashes differently / is not found in a set or dict keyed by it (hash {hv(r)} vs {hv(twin)})', data)
             if tf(lambda: r ^ x) is not True:
                 ctx.fail('clear_not_xor', f'{str(x)!r}.clear_features{tuple(names)} = {str(r)!r} is not ^-related to the receiver', data)
 
